@@ -100,6 +100,10 @@ class SimLoop(asyncio.base_events.BaseEventLoop):
     ) -> Tuple["SimDatagramTransport", Any]:
         if self.net is None:
             raise RuntimeError("SimLoop has no network attached")
+        if self.net.endpoint_delay is not None:
+            d = self.net.endpoint_delay()
+            if d:
+                await asyncio.sleep(d)     # socket creation takes time (busy host, slow resolver)
         protocol = protocol_factory()
         waiter = self.create_future()
         transport = SimDatagramTransport(
@@ -307,6 +311,8 @@ class SimNetwork:
         #: send_gate(transport, data) -> None (the OS accepts the datagram) or the virtual instant until which the
         #: socket's send queue is full (EAGAIN): the transport buffers the datagram until then
         self.send_gate: Optional[Callable[[Any, bytes], Optional[float]]] = None
+        #: endpoint_delay() -> virtual seconds the creation of the next datagram endpoint takes
+        self.endpoint_delay: Optional[Callable[[], float]] = None
 
     # bookkeeping --------------------------------------------------------
     def log(self, kind: str, *details: Any) -> None:
@@ -459,7 +465,8 @@ class SimNetwork:
             self.count("undeliverable")
             self.log("undeliverable", direction, idx)
             return
-        tr._deliver(data, src)
+        # asyncio reports IPv6 peers as (host, port, flowinfo, scope_id)
+        tr._deliver(data, src if ":" not in str(src[0]) or len(src) != 2 else (src[0], src[1], 0, 0))
 
     def inject(self, src: tuple, dst: tuple, data: bytes, delay_ticks: int = 1,
                direction: str = "a2c") -> None:
